@@ -3,7 +3,8 @@
 
 Translated (Python `ast` -> Gallina text):
   mro.py      Order.opposite, Order.merge
-  typemap.py  Candidate.sort_key, Candidate.dominates, the arity / required-keyword filter of MultiTypeMap.mro
+  typemap.py  Candidate.sort_key, Candidate.dominates, the arity / required-keyword filter of MultiTypeMap.mro,
+              the grouping loop of MultiTypeMap.mro._pull
 coq/Proofs/LeafAgree.v proves the generated definitions extensionally equal to the hand-written ones the model uses
 (Model/Order.v, Model/Resolve.v) with edit-tolerant scripts, so a harmless respelling re-proves while a semantic edit
 (>= -> >, a dropped branch, a swapped LESS/MORE) breaks a proof obligation.
@@ -233,6 +234,63 @@ def tr_arity(tree):
     return "Definition arity_ok_src (m : meth) (nargs : nat) (names : list nat) : bool :=\n  " + cond(target) + "."
 
 
+# ---- the grouping loop of MultiTypeMap.mro._pull -----------------------------------------------------------------
+def tr_pull(tree):
+    """for c2 in candidates[1:]: if COND: continue else: processed.add(c2.handler); rval.append(c2)
+    -> grp_src kept rest, where kept is rval (its first element is c1 = candidates[0])"""
+    mro = _find(tree, "MultiTypeMap", "mro")
+    pull = None
+    for n in ast.walk(mro):
+        if isinstance(n, ast.FunctionDef) and n.name == "_pull":
+            pull = n
+    if pull is None:
+        raise Unsupported("_pull not found")
+    loops = [n for n in pull.body if isinstance(n, ast.For)]
+    if len(loops) != 1:
+        raise Unsupported("expected one for loop in _pull")
+    loop = loops[0]
+    if not (isinstance(loop.target, ast.Name) and ast.unparse(loop.iter) == "candidates[1:]" and not loop.orelse):
+        raise Unsupported("loop header " + ast.unparse(loop.iter))
+    v = loop.target.id
+    # rval = [candidates[0]]; c1 = candidates[0] must precede the loop
+    pre = [ast.unparse(x) for x in pull.body if isinstance(x, ast.Assign)]
+    if "rval = [candidates[0]]" not in pre:
+        raise Unsupported("rval initialisation")
+    leader = [p.split(" = ")[0] for p in pre if p.endswith(" = candidates[0]")]
+    if len(loop.body) != 1 or not isinstance(loop.body[0], ast.If):
+        raise Unsupported("loop body")
+    i = loop.body[0]
+
+    def is_skip(b):
+        return len(b) == 1 and isinstance(b[0], ast.Continue)
+
+    def is_join(b):
+        srcs = sorted(ast.unparse(x) for x in b)
+        return srcs == sorted([f"processed.add({v}.handler)", f"rval.append({v})"])
+
+    def cond(e):
+        if isinstance(e, ast.Call) and isinstance(e.func, ast.Name) and e.func.id == "any" and len(e.args) == 1 \
+                and isinstance(e.args[0], ast.GeneratorExp) and len(e.args[0].generators) == 1:
+            g = e.args[0].generators[0]
+            if isinstance(g.target, ast.Name) and ast.unparse(g.iter) == "rval" and not g.ifs \
+                    and ast.unparse(e.args[0].elt) == f"{g.target.id}.dominates({v})":
+                return "existsb (fun c => dominates_src c c2) kept"
+        if isinstance(e, ast.Call) and isinstance(e.func, ast.Attribute) and e.func.attr == "dominates" \
+                and isinstance(e.func.value, ast.Name) and e.func.value.id in leader and len(e.args) == 1 and ast.unparse(e.args[0]) == v:
+            return "match kept with c1 :: _ => dominates_src c1 c2 | [] => false end"
+        if isinstance(e, ast.UnaryOp) and isinstance(e.op, ast.Not):
+            return "negb (" + cond(e.operand) + ")"
+        raise Unsupported(ast.unparse(e))
+    if is_skip(i.body) and is_join(i.orelse):
+        c = cond(i.test)
+    elif is_join(i.body) and (not i.orelse or is_skip(i.orelse)):
+        c = "negb (" + cond(i.test) + ")"
+    else:
+        raise Unsupported("branches of the grouping test")
+    return ("Fixpoint grp_src (kept rest : list cand) : list cand :=\n  match rest with\n  | [] => []\n"
+            f"  | c2 :: r => if {c} then grp_src kept r else c2 :: grp_src (kept ++ [c2]) r\n  end.")
+
+
 HEADER = """(* GENERATED by vlib/translator/leaf.py from /repo/src/ovld/{mro,typemap}.py on every run -- do not edit.
    Proofs/LeafAgree.v proves these equal to the hand-written definitions the model uses. *)
 From Coq Require Import ZArith List Bool Arith.
@@ -252,6 +310,7 @@ FALLBACK = {
     "sort_key": "Definition sort_key_src (c : cand) : Z * nat * Z := (c_prio c, sumn (c_spec c), c_tie c).",
     "dominates": "Definition dominates_src (a b : cand) : bool := dominates a b.",
     "arity": "Definition arity_ok_src (m : meth) (nargs : nat) (names : list nat) : bool := arity_ok m nargs names.",
+    "pull": "Definition grp_src (kept rest : list cand) : list cand := grp kept rest.",
 }
 
 
@@ -268,7 +327,8 @@ def regenerate():
             ("merge", lambda: tr_merge(_find(mro_tree, "Order", "merge"))),
             ("sort_key", lambda: tr_sort_key(_find(tm_tree, "Candidate", "sort_key"))),
             ("dominates", lambda: tr_dominates(_find(tm_tree, "Candidate", "dominates"))),
-            ("arity", lambda: tr_arity(tm_tree))]
+            ("arity", lambda: tr_arity(tm_tree)),
+            ("pull", lambda: tr_pull(tm_tree))]
     ok = True
     for name, job in jobs:
         try:
